@@ -43,10 +43,11 @@ const (
 	MEMCACHED
 	HTTP
 	SMTP2 // two smtp services in one process: even connection ids are served by the second
+	MCUDP // memcached over UDP (rate limited)
 )
 
-var svcName = map[int]string{LDAP: "ldap", FTP: "ftp", SMTP: "smtp", TFTP: "tftp", TELNET: "telnet", REDIS: "redis", MEMCACHED: "memcached", HTTP: "http", SMTP2: "smtp-two-services"}
-var svcPort = map[int]int{LDAP: 389, FTP: 21, SMTP: 25, TFTP: 69, TELNET: 23, REDIS: 6379, MEMCACHED: 11211, HTTP: 80, SMTP2: 25}
+var svcName = map[int]string{LDAP: "ldap", FTP: "ftp", SMTP: "smtp", TFTP: "tftp", TELNET: "telnet", REDIS: "redis", MEMCACHED: "memcached", HTTP: "http", SMTP2: "smtp-two-services", MCUDP: "memcached-udp"}
+var svcPort = map[int]int{LDAP: 389, FTP: 21, SMTP: 25, TFTP: 69, TELNET: 23, REDIS: 6379, MEMCACHED: 11211, HTTP: 80, SMTP2: 25, MCUDP: 11211}
 
 // ---- the scenario ----
 type Step struct {
@@ -78,23 +79,49 @@ type OStep struct {
 	Replies []ORep `json:"replies"`
 	Events  []OEv  `json:"events"`
 	Skipped bool   `json:"skipped,omitempty"` // nobody was reading the connection: nothing sent
+	// unprojected material for the differential part (not written out)
+	rawOut map[int][]byte
+	rawEOF map[int]bool
+	rawEvs []event.Event
 }
 type Obs struct {
 	Steps []OStep `json:"steps"`
 }
 
-// ---- addresses: connection n <-> 10.9.(n/16 / 256).(n/16 % 256) : 40000 + n%16 ----
-func remoteIP(n int) net.IP { return net.IPv4(10, 9, byte((n/16)/256), byte((n/16)%256)) }
-func remotePort(n int) int  { return 40000 + n%16 }
+// ---- addresses ----
+// connection n < 4096  <-> client 10.9.(n/16 / 256).(n/16 % 256) : 40000 + n%16
+// connection n >= 4096 <-> client 2001:db8:9::<n/16>              : 40000 + n%16   (IPv6)
+// destination (local) address of connection n: 192.0.2.(1 + n%3)
+func remoteIP(n int) net.IP {
+	if n >= 4096 {
+		ip := net.ParseIP("2001:db8:9::")
+		ip[14], ip[15] = byte((n/16)>>8), byte(n/16)
+		return ip
+	}
+	return net.IPv4(10, 9, byte((n/16)/256), byte((n/16)%256))
+}
+func remotePort(n int) int   { return 40000 + n%16 }
+func localIPOf(n int) net.IP { return net.IPv4(192, 0, 2, byte(1+n%3)) }
 func connOfAddr(ip string, port int) int {
-	p := net.ParseIP(ip).To4()
-	if p == nil || p[0] != 10 || p[1] != 9 || port < 40000 || port > 40015 {
+	if port < 40000 || port > 40015 {
 		return 9999
 	}
-	return (int(p[2])*256+int(p[3]))*16 + (port - 40000)
+	q := net.ParseIP(ip)
+	if p := q.To4(); p != nil {
+		if p[0] != 10 || p[1] != 9 {
+			return 9999
+		}
+		return (int(p[2])*256+int(p[3]))*16 + (port - 40000)
+	}
+	if q == nil || !q[:14].Equal(net.ParseIP("2001:db8:9::")[:14]) {
+		return 9999
+	}
+	n := (int(q[14])<<8+int(q[15]))*16 + (port - 40000)
+	if n < 4096 {
+		return 9999
+	}
+	return n
 }
-
-var localIP = net.ParseIP("192.0.2.1")
 
 // ---- recording channel ----
 type recorder struct {
@@ -148,20 +175,24 @@ type sess struct {
 }
 
 type engine struct {
-	svc      int
-	s        services.Servicer
-	s2       services.Servicer // SMTP2: the second service (port 587), serving even connection ids
-	rec      *recorder
-	sess     map[int]*sess
-	order    []int
-	blocked  int32
-	live     int32
-	evSeen   int
-	sids     map[string]int
-	crashMu  sync.Mutex
-	crash    string
-	retMu    sync.Mutex
-	returned []int
+	svc       int
+	s         services.Servicer
+	wantEvent bool              // every consumed write is reported by a pump goroutine (ftp, smtp)
+	quiet     time.Duration     // how long the service must be seen at rest (default quietWindow)
+	raw       bool              // keep the unprojected replies and events of every step
+	s2        services.Servicer // SMTP2: the second service (port 587), serving even connection ids
+	rec       *recorder
+	sess      map[int]*sess
+	order     []int
+	blocked   int32
+	panics    int32 // panics in Handle, recovered as server.handle does
+	live      int32
+	evSeen    int
+	sids      map[string]int
+	crashMu   sync.Mutex
+	crash     string
+	retMu     sync.Mutex
+	returned  []int
 }
 
 func (e *engine) setCrash(s string) {
@@ -183,10 +214,18 @@ func proto(svc int) int {
 	return svc
 }
 
+// the registry name of the service behind a scenario kind
+func regName(svc int) string {
+	if svc == MCUDP {
+		return "memcached"
+	}
+	return svcName[proto(svc)]
+}
+
 func newService(svc int, rec *recorder) services.Servicer {
-	fn, ok := services.Get(svcName[proto(svc)])
+	fn, ok := services.Get(regName(svc))
 	if !ok {
-		hx.Fatal("service %s not registered", svcName[proto(svc)])
+		hx.Fatal("service %s not registered", regName(svc))
 	}
 	// note: every smtp service ever built in this process stays registered on the package-level
 	// smtp.DefaultServeMux; connections must not depend on it
@@ -208,7 +247,7 @@ func (e *engine) open(id int) {
 	if e.svc == SMTP2 && id%2 == 0 {
 		port, handler = 587, e.s2
 	}
-	sc, cc := lab.Pipe(&net.TCPAddr{IP: localIP, Port: port}, &net.TCPAddr{IP: remoteIP(id), Port: remotePort(id)})
+	sc, cc := lab.Pipe(&net.TCPAddr{IP: localIPOf(id), Port: port}, &net.TCPAddr{IP: remoteIP(id), Port: remotePort(id)})
 	cn := &cntConn{AConn: sc, eng: e}
 	s := &sess{id: id, sc: cn, cc: cc}
 	e.sess[id] = s
@@ -218,7 +257,8 @@ func (e *engine) open(id int) {
 	go func() {
 		defer func() {
 			if r := recover(); r != nil {
-				e.setCrash(fmt.Sprintf("panic in Handle: %v", r))
+				// server.handle recovers, records a fatal event on the bus and closes the connection
+				atomic.AddInt32(&e.panics, 1)
 			}
 			cn.Close() // server.handle: defer conn.Close()
 			e.retMu.Lock()
@@ -287,7 +327,7 @@ func (e *engine) settle(wantEvents int) bool {
 				since = now
 			}
 			stable++
-			if stable >= 4 && now.Sub(since) >= quietWindow {
+			if stable >= 4 && now.Sub(since) >= e.quietFor() {
 				return true
 			}
 		} else {
@@ -298,6 +338,13 @@ func (e *engine) settle(wantEvents int) bool {
 		}
 		runtime.Gosched()
 	}
+}
+
+func (e *engine) quietFor() time.Duration {
+	if e.quiet > 0 {
+		return e.quiet
+	}
+	return quietWindow
 }
 
 func (e *engine) harvest() OStep {
@@ -318,6 +365,12 @@ func (e *engine) harvest() OStep {
 		if eof {
 			st.Replies = append(st.Replies, ORep{Conn: id, Code: 0})
 		}
+		if e.raw {
+			if st.rawOut == nil {
+				st.rawOut, st.rawEOF = map[int][]byte{}, map[int]bool{}
+			}
+			st.rawOut[id], st.rawEOF[id] = out, eof
+		}
 	}
 	e.rec.mu.Lock()
 	evs := append([]event.Event(nil), e.rec.evs[e.evSeen:]...)
@@ -327,94 +380,120 @@ func (e *engine) harvest() OStep {
 		st.Events = append(st.Events, canonEvent(proto(e.svc), ev, e.sids))
 	}
 	sort.SliceStable(st.Events, func(i, j int) bool { return st.Events[i].Conn < st.Events[j].Conn })
+	if e.raw {
+		st.rawEvs = evs
+	}
 	return st
+}
+
+func (e *engine) closeAll() {
+	for _, s := range e.sess {
+		s.mu.Lock()
+		s.selfClosed = true
+		s.mu.Unlock()
+		s.cc.Close()
+	}
+}
+
+// one step: open / close / write p on the connection; waits for the service to come to rest
+func (e *engine) step(k int, kind string, conn int, p []byte, events int) (OStep, string) {
+	want := e.rec.count()
+	e.retMu.Lock()
+	e.returned = nil
+	e.retMu.Unlock()
+	skipped := false
+	switch kind {
+	case "open":
+		if _, dup := e.sess[conn]; dup {
+			hx.Fatal("scenario opens connection %d twice", conn)
+		}
+		e.open(conn)
+	case "close":
+		s := e.sess[conn]
+		if s == nil {
+			skipped = true
+			break
+		}
+		s.mu.Lock()
+		already := s.selfClosed || s.eof
+		s.selfClosed = true
+		s.mu.Unlock()
+		if already {
+			skipped = true
+		}
+		s.cc.Close()
+	case "tok":
+		s := e.sess[conn]
+		if s == nil {
+			skipped = true
+			break
+		}
+		s.mu.Lock()
+		dead := s.selfClosed || s.eof
+		s.mu.Unlock()
+		select {
+		case <-s.sc.Closed():
+			dead = true
+		default:
+		}
+		if dead || atomic.LoadInt32(&s.sc.blocked) == 0 {
+			// closed, or no goroutine will ever read this connection again: a real socket
+			// would buffer the bytes unread; nothing can come of them
+			skipped = true
+			break
+		}
+		s.cc.SetWriteDeadline(time.Now().Add(2 * time.Second))
+		n, _ := s.cc.Write(p)
+		s.sent += int64(n)
+		// the server side has taken the bytes out of the pipe; wait until its Read returned
+		t0 := time.Now()
+		for atomic.LoadInt64(&s.sc.consumed) < s.sent && time.Since(t0) < 2*time.Second {
+			runtime.Gosched()
+		}
+		want += events // events sent by a pump goroutine, after the handler is back in Read
+	}
+	if !e.settle(want) {
+		e.crashMu.Lock()
+		c := e.crash
+		e.crashMu.Unlock()
+		if c == "" {
+			c = fmt.Sprintf("step %d (%s conn %d): the service did not come to rest within 3 s (blocked readers %d, running handlers %d, events %d, expected at least %d)",
+				k, kind, conn, atomic.LoadInt32(&e.blocked), atomic.LoadInt32(&e.live), e.rec.count(), want)
+		}
+		return OStep{}, c
+	}
+	st := e.harvest()
+	st.Skipped = skipped
+	e.crashMu.Lock()
+	c := e.crash
+	e.crashMu.Unlock()
+	return st, c
 }
 
 // run the scenario; fills in the picks
 func runTCP(in *Input) (Obs, string) {
 	e := newEngine(in.Svc)
 	var ob Obs
-	defer func() {
-		for _, s := range e.sess {
-			s.mu.Lock()
-			s.selfClosed = true
-			s.mu.Unlock()
-			s.cc.Close()
-		}
-	}()
+	defer e.closeAll()
 	for k := range in.Trace {
 		stp := &in.Trace[k]
-		want := e.rec.count()
-		e.retMu.Lock()
-		e.returned = nil
-		e.retMu.Unlock()
-		skipped := false
-		switch stp.Kind {
-		case "open":
-			if _, dup := e.sess[stp.Conn]; dup {
-				hx.Fatal("scenario opens connection %d twice", stp.Conn)
-			}
-			e.open(stp.Conn)
-		case "close":
-			s := e.sess[stp.Conn]
-			if s == nil {
-				skipped = true
-				break
-			}
-			s.mu.Lock()
-			already := s.selfClosed || s.eof
-			s.selfClosed = true
-			s.mu.Unlock()
-			if already {
-				skipped = true
-			}
-			s.cc.Close()
-		case "tok":
-			s := e.sess[stp.Conn]
-			if s == nil {
-				skipped = true
-				break
-			}
-			s.mu.Lock()
-			dead := s.selfClosed || s.eof
-			s.mu.Unlock()
-			select {
-			case <-s.sc.Closed():
-				dead = true
-			default:
-			}
-			if dead || atomic.LoadInt32(&s.sc.blocked) == 0 {
-				// closed, or no goroutine will ever read this connection again: a real socket
-				// would buffer the bytes unread; nothing can come of them
-				skipped = true
-				break
-			}
-			p := payload(proto(in.Svc), stp.T, stp.A)
-			s.cc.SetWriteDeadline(time.Now().Add(2 * time.Second))
-			n, _ := s.cc.Write(p)
-			s.sent += int64(n)
-			// the server side has taken the bytes out of the pipe; wait until its Read returned
-			t0 := time.Now()
-			for atomic.LoadInt64(&s.sc.consumed) < s.sent && time.Since(t0) < 2*time.Second {
-				runtime.Gosched()
-			}
-			if in.Svc == FTP || proto(in.Svc) == SMTP {
-				want++ // one event per line / message, sent by a pump goroutine
+		var p []byte
+		if stp.Kind == "tok" {
+			p = payload(proto(in.Svc), stp.T, stp.A)
+		}
+		// ftp, smtp: one event per line / message, sent by the connection's pump goroutine
+		events := 0
+		if in.Svc == FTP || proto(in.Svc) == SMTP {
+			events = 1
+			if proto(in.Svc) == SMTP && (stp.T == 12 || stp.T == 13) {
+				events = 2 // the BDAT line and the mail it completes
 			}
 		}
-		if !e.settle(want) {
-			e.crashMu.Lock()
-			c := e.crash
-			e.crashMu.Unlock()
-			if c == "" {
-				c = fmt.Sprintf("step %d (%s conn %d t=%d): the service did not come to rest within 3 s (blocked readers %d, running handlers %d, events %d, expected at least %d)",
-					k, stp.Kind, stp.Conn, stp.T, atomic.LoadInt32(&e.blocked), atomic.LoadInt32(&e.live), e.rec.count(), want)
-			}
-			return ob, c
+		st, crash := e.step(k, stp.Kind, stp.Conn, p, events)
+		if crash != "" && len(st.Replies) == 0 && len(st.Events) == 0 {
+			return ob, crash
 		}
-		st := e.harvest()
-		st.Skipped = skipped
-		// the scheduling choice made inside the step, as far as it shows
+		// the connection whose address the step's event carried (for the replay files)
 		if stp.Kind == "tok" {
 			stp.Pick = 0
 			for _, ev := range st.Events {
@@ -424,84 +503,106 @@ func runTCP(in *Input) (Obs, string) {
 				stp.Pick = ev.Conn
 				break
 			}
-			if stp.Pick == 0 && in.Svc == LDAP {
-				e.retMu.Lock()
-				if len(e.returned) > 0 {
-					stp.Pick = e.returned[0]
-				}
-				e.retMu.Unlock()
-			}
 		}
 		ob.Steps = append(ob.Steps, st)
-		e.crashMu.Lock()
-		c := e.crash
-		e.crashMu.Unlock()
-		if c != "" {
-			return ob, c
+		if crash != "" {
+			return ob, crash
 		}
 	}
 	return ob, ""
 }
 
-// tftp: one datagram = one connection object (listener.DummyUDPConn), as the socket listener
-// builds it; Handle runs to completion for each
-func runTFTP(in *Input) (ob Obs, crash string) {
+// UDP services (tftp, memcached): one datagram = one connection object (listener.DummyUDPConn),
+// as the socket listener builds it; Handle runs to completion for each
+type udpRunner struct {
+	svc  int
+	s    services.Servicer
+	rec  *recorder
+	sids map[string]int
+	seen int
+	raw  bool
+}
+
+func newUDPRunner(svc int) *udpRunner {
 	rec := &recorder{}
-	svc := newService(TFTP, rec)
-	sids := map[string]int{}
-	seen := 0
+	return &udpRunner{svc: svc, s: newService(svc, rec), rec: rec, sids: map[string]int{}}
+}
+
+func (u *udpRunner) datagram(k, conn int, p []byte) (OStep, string) {
+	var st OStep
+	var replies [][]byte
+	c := &listener.DummyUDPConn{Buffer: append([]byte(nil), p...),
+		Laddr: &net.UDPAddr{IP: localIPOf(conn), Port: svcPort[u.svc]},
+		Raddr: &net.UDPAddr{IP: remoteIP(conn), Port: remotePort(conn)},
+		Fn: func(b []byte, addr *net.UDPAddr) (int, error) {
+			replies = append(replies, append([]byte(nil), b...))
+			return len(b), nil
+		}}
+	done := make(chan string, 1)
+	go func() {
+		defer func() {
+			if r := recover(); r != nil {
+				done <- fmt.Sprintf("panic in Handle: %v", r)
+			}
+		}()
+		u.s.Handle(context.Background(), server.TimeoutConn(c, 30*time.Second))
+		done <- ""
+	}()
+	select {
+	case cr := <-done:
+		if cr != "" {
+			return st, cr
+		}
+	case <-time.After(5 * time.Second):
+		return st, fmt.Sprintf("step %d: %s Handle did not return", k, svcName[u.svc])
+	}
+	var all []byte
+	for _, r := range replies {
+		code := canonTFTP(r)
+		if u.svc == MCUDP {
+			code = 9
+			if cs := canonReplies(MEMCACHED, r); len(cs) > 0 {
+				code = cs[0]
+			}
+		}
+		st.Replies = append(st.Replies, ORep{Conn: conn, Code: code})
+		all = append(all, r...)
+		all = append(all, '|')
+	}
+	u.rec.mu.Lock()
+	evs := append([]event.Event(nil), u.rec.evs[u.seen:]...)
+	u.seen = len(u.rec.evs)
+	u.rec.mu.Unlock()
+	for _, ev := range evs {
+		st.Events = append(st.Events, canonEvent(proto(u.svc), ev, u.sids))
+	}
+	sort.SliceStable(st.Events, func(i, j int) bool { return st.Events[i].Conn < st.Events[j].Conn })
+	if u.raw {
+		st.rawOut, st.rawEOF, st.rawEvs = map[int][]byte{conn: all}, map[int]bool{}, evs
+	}
+	return st, ""
+}
+
+func runUDP(in *Input) (ob Obs, crash string) {
+	u := newUDPRunner(in.Svc)
 	for k := range in.Trace {
 		stp := &in.Trace[k]
-		var st OStep
 		if stp.Kind != "tok" {
-			ob.Steps = append(ob.Steps, st)
+			ob.Steps = append(ob.Steps, OStep{})
 			continue
 		}
-		var replies [][]byte
-		u := &listener.DummyUDPConn{Buffer: payload(TFTP, stp.T, stp.A),
-			Laddr: &net.UDPAddr{IP: localIP, Port: svcPort[TFTP]},
-			Raddr: &net.UDPAddr{IP: remoteIP(stp.Conn), Port: remotePort(stp.Conn)},
-			Fn: func(b []byte, addr *net.UDPAddr) (int, error) {
-				replies = append(replies, append([]byte(nil), b...))
-				return len(b), nil
-			}}
-		done := make(chan string, 1)
-		go func() {
-			defer func() {
-				if r := recover(); r != nil {
-					done <- fmt.Sprintf("panic in Handle: %v", r)
-				}
-			}()
-			svc.Handle(context.Background(), server.TimeoutConn(u, 30*time.Second))
-			done <- ""
-		}()
-		select {
-		case c := <-done:
-			if c != "" {
-				return ob, c
-			}
-		case <-time.After(5 * time.Second):
-			return ob, fmt.Sprintf("step %d: tftp Handle did not return", k)
+		st, cr := u.datagram(k, stp.Conn, payload(in.Svc, stp.T, stp.A))
+		if cr != "" {
+			return ob, cr
 		}
-		for _, r := range replies {
-			st.Replies = append(st.Replies, ORep{Conn: stp.Conn, Code: canonTFTP(r)})
-		}
-		rec.mu.Lock()
-		evs := append([]event.Event(nil), rec.evs[seen:]...)
-		seen = len(rec.evs)
-		rec.mu.Unlock()
-		for _, ev := range evs {
-			st.Events = append(st.Events, canonEvent(TFTP, ev, sids))
-		}
-		sort.SliceStable(st.Events, func(i, j int) bool { return st.Events[i].Conn < st.Events[j].Conn })
 		ob.Steps = append(ob.Steps, st)
 	}
 	return ob, ""
 }
 
 func runOne(in *Input) (Obs, string) {
-	if in.Svc == TFTP {
-		return runTFTP(in)
+	if in.Svc == TFTP || in.Svc == MCUDP {
+		return runUDP(in)
 	}
 	return runTCP(in)
 }
@@ -578,22 +679,23 @@ func shape(in Input) string {
 	return "interleaved"
 }
 
-func main() {
-	o := hx.ParseArgs()
-	// smtp prints every line to stdout
-	if devnull, err := os.OpenFile(os.DevNull, os.O_WRONLY, 0); err == nil {
-		os.Stdout = devnull
-	}
-	setupStorage(o.Out)
+// a replay file carries the input of one case of one part
+type anyInput struct {
+	Svc     int     `json:"svc"`
+	Trace   []Step  `json:"trace"`
+	Calls   []LCall `json:"calls"`
+	Probe   *DSess  `json:"probe"`
+	Others  []DSess `json:"others"`
+	Order   []int   `json:"order"`
+	Variant string  `json:"variant"`
+}
+
+func isoPart(o hx.Opts, r *hx.Rand, only *Input) {
 	var ins []Input
-	if o.Only != "" {
-		var in Input
-		if err := hx.LoadReplay(o.Only, &in); err != nil {
-			hx.Fatal("replay: %v", err)
-		}
-		ins = []Input{in}
+	if only != nil {
+		ins = []Input{*only}
 	} else {
-		ins = generate(hx.NewRand(o.Seed), o.Tier)
+		ins = generate(r, o.Tier)
 	}
 	dist := map[string]int{}
 	var cases []hx.Case
@@ -617,6 +719,15 @@ func main() {
 		dist["service:"+in.Name]++
 		dist["shape:"+shape(in)]++
 		dist[fmt.Sprintf("steps:%02d-%02d", len(in.Trace)/5*5, len(in.Trace)/5*5+4)]++
+		v6 := false
+		for _, st := range in.Trace {
+			if st.Conn >= 4096 {
+				v6 = true
+			}
+		}
+		if v6 {
+			dist["with-ipv6-clients"]++
+		}
 		for _, st := range ob.Steps {
 			if st.Skipped {
 				dist["steps-on-unread-or-closed-connection"]++
@@ -625,12 +736,40 @@ func main() {
 		if debug {
 			fmt.Fprintf(os.Stderr, "case %d %s crash=%q\n", i, in.Name, crash)
 			for k, st := range ob.Steps {
-				fmt.Fprintf(os.Stderr, "  %+v -> %+v\n", in.Trace[k], st)
+				fmt.Fprintf(os.Stderr, "  %+v -> %+v %+v\n", in.Trace[k], st.Replies, st.Events)
 			}
 		}
 		cases = append(cases, hx.Case{ID: i, Kind: in.Name + "/" + shape(in), Input: in, Obs: ob, Crash: crash, Coq: coqCase(i, in, ob)})
 	}
 	hx.Write(o, "C03", "iso", "From HT Require Import C03.Model C03.Check.", "case", cases, dist, nil, 60)
+}
+
+func main() {
+	o := hx.ParseArgs()
+	// smtp prints every line to stdout
+	if devnull, err := os.OpenFile(os.DevNull, os.O_WRONLY, 0); err == nil {
+		os.Stdout = devnull
+	}
+	setupStorage(o.Out)
+	r := hx.NewRand(o.Seed)
+	if o.Only != "" {
+		var in anyInput
+		if err := hx.LoadReplay(o.Only, &in); err != nil {
+			hx.Fatal("replay: %v", err)
+		}
+		switch {
+		case in.Calls != nil:
+			limPart(o, r, &LInput{Calls: in.Calls})
+		case in.Probe != nil:
+			diffPart(o, r, &DInput{Svc: in.Svc, Variant: in.Variant, Probe: *in.Probe, Others: in.Others, Order: in.Order})
+		default:
+			isoPart(o, r, &Input{Svc: in.Svc, Trace: in.Trace})
+		}
+		return
+	}
+	isoPart(o, r, nil)
+	diffPart(o, hx.NewRand(o.Seed+1000003), nil)
+	limPart(o, hx.NewRand(o.Seed+2000003), nil)
 }
 
 func lower(s string) string { return strings.ToLower(s) }
